@@ -81,17 +81,26 @@ def tlc_printed(out, tag):
     return res
 
 
+def tlc(*a, **kw):
+    """vlib.tlc, repeated once if the JVM was killed by a signal from outside (shared sandbox)."""
+    r = vlib.tlc(*a, **kw)
+    if r.violation is None and r.rc in (143, 137, 130, -15, -9):
+        time.sleep(2)
+        r = vlib.tlc(*a, **kw)
+    return r
+
+
 # ------------------------------------------------------------------ model checking
 
 def run_mc(p, result):
     try:
         cfg = mc_cfg(p["mc_sessions"], p["mc_inv"])
-        r = vlib.tlc("MC_VersionLock", cfg="c19_mc.cfg", files=[("c19_mc.cfg", cfg)],
+        r = tlc("MC_VersionLock", cfg="c19_mc.cfg", files=[("c19_mc.cfg", cfg)],
                      workers=p["mc_workers"], timeout=3000, heap="12g")
         result["mc"] = r
         # the deviation switched on must be visible to TLC (sanity of the spec itself)
         cfg = mc_cfg(3, "TypeOK PropertyInv", dev=True)
-        result["dev"] = vlib.tlc("MC_VersionLock", cfg="c19_dev.cfg", files=[("c19_dev.cfg", cfg)],
+        result["dev"] = tlc("MC_VersionLock", cfg="c19_dev.cfg", files=[("c19_dev.cfg", cfg)],
                                  workers=2, timeout=600, heap="2g")
     except BaseException as e:       # re-raised in the main thread
         result["exc"] = e
@@ -99,7 +108,7 @@ def run_mc(p, result):
 
 def export(sessions):
     cfg = mc_cfg(sessions, "TypeOK ExportAll", anywhere=False, single=True, minfork=1)
-    r = vlib.tlc("MC_VersionLock", cfg="c19_exp.cfg", files=[("c19_exp.cfg", cfg)], workers=1,
+    r = tlc("MC_VersionLock", cfg="c19_exp.cfg", files=[("c19_exp.cfg", cfg)], workers=1,
                  timeout=900, heap="4g")
     if not r.ok:
         raise vlib.Infra("export run failed: %s %s\n%s" % (r.violation, r.error, r.out[-3000:]))
@@ -225,7 +234,7 @@ def validate(lines, dev=False, par=None):
     cfg = TRACE_CFG % ("TRUE" if dev else "FALSE")
 
     def one(ch):
-        r = vlib.tlc("Trace_VersionLock", cfg="c19_tr.cfg", workers=1, timeout=2400, heap="3g",
+        r = tlc("Trace_VersionLock", cfg="c19_tr.cfg", workers=1, timeout=2400, heap="3g",
                      files=[("c19_tr.cfg", cfg), ("c19_obs.ndjson", "\n".join(ch) + "\n")])
         summ = tlc_printed(r.out, "C19SUMMARY")
         if not summ or summ[-1]["lines"] != len(ch):
